@@ -525,6 +525,12 @@ class _Meta(type):
     def __repr__(cls):
         return "<class '%s'>" % cls._real.__name__
 
+    def __getattr__(cls, name):
+        # class-level attributes of the real builtin (str.maketrans, int.from_bytes, dict.fromkeys ...)
+        if name.startswith("__"):
+            raise AttributeError(name)
+        return getattr(cls._real, name)
+
     def __instancecheck__(cls, x):
         return cls._check(x)
 
